@@ -28,6 +28,9 @@ func (p recvProp) Decode(raw json.RawMessage) (interface{}, error) {
 	for i := range in.Items {
 		if in.Items[i].XML == "" {
 			in.Items[i].render()
+			if in.WS && in.Items[i].T == "stanza" {
+				in.Items[i].XML = wsNS(in.Items[i].XML)
+			}
 		}
 	}
 	return in, err
@@ -37,7 +40,7 @@ func (p recvProp) Input(in interface{}) Sx { return recvInputSx(in.(recvIn)) }
 
 func (p recvProp) Key(inp interface{}) (string, bool) {
 	in := inp.(recvIn)
-	k := fmt.Sprintf("c%v sm%v w%d cut%d ws%v%v%v lg%v%v:", in.Component, in.SM, in.WFail, in.Cut, in.WS, in.Frag, in.PeerClose, in.Logged, in.ErrWithData)
+	k := fmt.Sprintf("c%v sm%v w%d cut%d ws%v%v%v lg%v%v:", in.Component, in.SM, in.WFail, in.Cut, in.WS, in.Frag, in.PeerClose || in.PeerCloseNow, in.Logged, in.ErrWithData)
 	if in.WS {
 		hist("transport:websocket")
 	} else {
@@ -74,6 +77,7 @@ func (p recvProp) Oracle(inp interface{}, obs Sx) (string, string) {
 	items := in.completeItems()
 	var processed []rItem
 	nw, endedBy := 0, "cut"
+	failedAnswers := 0
 	for _, it := range items {
 		if it.T == "bad" {
 			endedBy = "bad"
@@ -86,8 +90,7 @@ func (p recvProp) Oracle(inp interface{}, obs Sx) (string, string) {
 		if it.T == "r" && !in.Component {
 			nw++
 			if in.WFail == nw {
-				endedBy = "writefail"
-				break
+				failedAnswers++ // the answer cannot be written; the loop goes on with what it has received
 			}
 		}
 		processed = append(processed, it)
@@ -143,9 +146,14 @@ func (p recvProp) Oracle(inp interface{}, obs Sx) (string, string) {
 			}
 		}
 		var got []int64
+		nfailed := 0
 		for _, e := range syncLog {
-			if e.L[0].Z == 2 {
+			if e.L[0].Z == 2 || e.L[0].Z == 3 {
+				// written, or attempted and refused by the transport (injected fault): one per request either way
 				got = append(got, e.L[1].Z)
+				if e.L[0].Z == 3 {
+					nfailed++
+				}
 			}
 			if e.L[0].Z == 99 {
 				return "unexpected bytes written by the receive loop: " + e.String(), "stray-write"
@@ -158,6 +166,9 @@ func (p recvProp) Oracle(inp interface{}, obs Sx) (string, string) {
 			if got[i] != want[i] {
 				return fmt.Sprintf("answer %d reports h=%d but %d stanzas had been received", i, got[i], want[i]), "answer-h"
 			}
+		}
+		if nfailed != failedAnswers {
+			return fmt.Sprintf("%d answers refused by the transport, %d faults injected", nfailed, failedAnswers), "answers-failed-count"
 		}
 	}
 	// 3. loss reported exactly once
@@ -289,6 +300,25 @@ func genC05(r *rand.Rand, tier string) []interface{} {
 		in.Frag = i%3 == 1
 		in.PeerClose = i%3 == 2
 		in.Items = wsify(genItems(r, 1+r.Intn(25), r.Intn(4) == 0, false))
+		if i%4 == 0 {
+			// one message larger than any buffer the decoder reads with (7 to 28 kB, under the 32 kB frame limit)
+			big := rItem{T: "stanza", Kind: []int{0, 2}[r.Intn(2)], ID: 9000 + i, Deep: 1000 + r.Intn(3000)}
+			big.render()
+			at := r.Intn(len(in.Items) + 1)
+			in.Items = append(in.Items[:at:at], append(wsify([]rItem{big}), in.Items[at:]...)...)
+		}
+		if i%6 == 5 {
+			// a burst, and the websocket closed right behind it: the client is still reading when the close arrives;
+			// what was sent before the close was completely received and must still be routed
+			in.PeerClose, in.PeerCloseNow = false, true
+			var burst []rItem
+			for _, it := range wsify(genItems(r, 120+r.Intn(120), false, false)) {
+				if it.T != "r" { // (an answer could not reach a server that has closed; what matters here is the routing)
+					burst = append(burst, it)
+				}
+			}
+			in.Items = burst
+		}
 		out = append(out, in)
 	}
 	return out
